@@ -33,7 +33,7 @@ class C06(Check):
     assumptions = ['ballots are observed through Election.ballots[*].index/.weight/.multiplier beside every logged action; '
                    'if those anchors disappear the check exits 2 (cannot observe), not 1',
                    '"stands with the first candidate neither elected-and-transferred nor defeated" is read as standard STV does: a candidate elected with a pending surplus receives no further ballots (mpls has no pending state)']
-    budget = {'quick': 115, 'thorough': 2400}
+    budget = {'quick': 240, 'thorough': 3000}
 
     def cases(self, tier):
         G = [{'rule': r} for r in configs.GREGORY]
